@@ -177,6 +177,8 @@ def arr_profile(env, isort=INT, esort=INT):
            m.Array(it, ec[0], {ic[0]: ec[1]}),
            m.Array(it, ec[0], {ic[0]: ec[1], ic[1]: ec[-1]}),
            m.Array(it, ec[1], {ic[1]: ec[0]}))
+    # an array literal whose stored value is a symbol (occurring nowhere else in the literal)
+    p.leaf(A, m.Array(it, ec[0], {ic[1]: p.sym("e" if esort != isort else "i", esort)}))
     p.leaf(isort, p.sym("i", isort), *ic[:2])
     if esort != isort:
         if esort == BOOL:
